@@ -837,7 +837,14 @@ impl Bindgen for FunctionBindgen<'_, '_> {
                 let vec = operands[0].clone();
                 let target = operands[1].clone();
                 let size = self.r#gen.sizes.size(element);
-                self.push_str(&format!("for (i, e) in {vec}.into_iter().enumerate() {{\n",));
+                // Arguments of imports are lowered by reference: iterating an
+                // owned array by value would drop each element (and free the
+                // buffers just stored) before the import is called.
+                let iter = match self.lift_lower() {
+                    LiftLower::LowerArgsLiftResults if !self.always_owned => "iter",
+                    _ => "into_iter",
+                };
+                self.push_str(&format!("for (i, e) in {vec}.{iter}().enumerate() {{\n",));
                 self.push_str(&format!(
                     "let base = {target}.add(i * {});\n",
                     size.format(POINTER_SIZE_EXPRESSION)
@@ -1381,8 +1388,14 @@ impl Bindgen for FunctionBindgen<'_, '_> {
                 size,
                 id: _,
             } => {
+                // Arguments of imports are lowered by reference: borrow each
+                // element rather than moving it out of the array by index.
+                let borrow = match self.lift_lower() {
+                    LiftLower::LowerArgsLiftResults if !self.always_owned => "&",
+                    _ => "",
+                };
                 for i in 0..(*size as usize) {
-                    results.push(format!("{}[{i}]", operands[0]));
+                    results.push(format!("{borrow}{}[{i}]", operands[0]));
                 }
             }
             Instruction::FixedLengthListLiftFromMemory {
